@@ -5,10 +5,12 @@ package main
 // extends it at the frontier, queueing the feasible alternatives.
 
 import (
+	"bufio"
 	"encoding/json"
 	"fmt"
 	"go/token"
 	"go/types"
+	"io"
 	"os"
 	"sort"
 	"strings"
@@ -350,6 +352,7 @@ type engine struct {
 	maxLen             int
 	maxPaths           int
 	maxSeconds         int
+	qlogDir            string
 	workers            int
 	solverBin          string
 	solverTimeout      int
@@ -416,7 +419,16 @@ func (e *engine) explore(entry *ssa.Function, args []value, qlog func(int) *stri
 	traceSeen := map[string]bool{}
 
 	worker := func(id int) {
-		sol, err := NewSolver(e.solverBin, e.solverTimeout, nil)
+		var qlog io.Writer
+		if e.qlogDir != "" {
+			if f, ferr := os.Create(fmt.Sprintf("%s/%s-w%d.smt2", e.qlogDir, entry.Name(), id)); ferr == nil {
+				defer f.Close()
+				bw := bufio.NewWriterSize(f, 1<<20)
+				defer bw.Flush()
+				qlog = bw
+			}
+		}
+		sol, err := NewSolver(e.solverBin, e.solverTimeout, qlog)
 		if err != nil {
 			mu.Lock()
 			inconcl["solver start: "+err.Error()]++
